@@ -1590,11 +1590,26 @@ impl Handler<NamingCmd> for NamingActor {
                 Ok(NamingResult::NULL)
             }
             NamingCmd::Delete(instance) => {
-                let (_, perpetual_tag) = self.remove_instance(
+                // a client's request (not a peer's notification) may hit the copy of an instance
+                // that another node holds (the request is routed by the hash of the service, a
+                // gRPC instance lives on the node of its connection)
+                let mirror = if instance.is_from_cluster() {
+                    None
+                } else {
+                    self.get_instance(&instance.get_service_key(), &instance.get_short_key())
+                        .filter(|e| e.is_from_cluster())
+                };
+                let (tag, perpetual_tag) = self.remove_instance(
                     &instance.get_service_key(),
                     &instance.get_short_key(),
                     Some(&instance.client_id),
                 );
+                if let (UpdateInstanceType::Remove, Some(mirror), Some(cluster_delay_notify)) =
+                    (&tag, mirror, &self.cluster_delay_notify)
+                {
+                    // the holder has to drop it too, otherwise it hands the instance out again
+                    cluster_delay_notify.do_send(InstanceDelayNotifyRequest::RemoveInstance(mirror));
+                }
                 if let UpdatePerpetualType::Remove = perpetual_tag {
                     let instance_key = instance.get_instance_key();
                     self.remove_instance_to_raft(instance_key, ctx);
